@@ -13,7 +13,7 @@ MANIFEST = dict(
     technique="Lean 4 proof over a parametric model + constants regenerated from source + dense differential correspondence run",
     design="5/C04",
 )
-GEN = ["Versions"]
+GEN = ["Versions", "VersionLib"]
 THEOREMS = [
     "c04_translated",
     "c04_answer_supported",
@@ -31,6 +31,17 @@ THEOREMS = [
     "c04_any_choice",
     "c04_session_records_answer_seq_any_choice",
     "c04_handshake_sound_any_choice",
+    "c04_versionlib_translated",
+    "c04_negotiate_first_common",
+    "c04_negotiate_raises_iff_disjoint",
+    "c04_compatible_iff",
+    "c04_compare_spec",
+    "c04_compare_total_order",
+    "c04_compare_is_date_order",
+    "c04_compare_matches_c13_model",
+    "c04_parse_iff_valid",
+    "c04_current_minimum_bounds",
+    "c04_version_info_flags",
 ]
 RULE = (
     "server: requested protocolVersion in {each supported version, every calendar date 1925-01-01..2124-12-31, seeded dddd-dd-dd strings "
@@ -389,5 +400,134 @@ class Handshake(Suite):
             yield dict(case, pref=None)
 
 
+class Informational(Suite):
+    """A supplementary correspondence (obligations not implied by the property text): a difference between the real function and
+    the model is RECORDED (evidence notes + distribution bucket `supplementary-divergence/<suite>`), it is not a broken
+    obligation of the property.  The theorems about the regenerated functions are audited like all others."""
+
+    def cases(self, ctx, budget):
+        self._ctx = ctx
+        return self.gen(ctx, budget)
+
+    def differs(self, case, o, m):  # -> None | str
+        return None if canon(o) == canon(m) else "observations differ"
+
+    def compare(self, case, o, m):
+        d = self.differs(case, o, m)
+        if d is not None:
+            ctx = getattr(self, "_ctx", None)
+            if ctx is not None:
+                ctx.dist["supplementary-divergence/" + self.name] += 1
+                if sum(1 for n in ctx.notes if n.startswith("supplementary divergence")) < 10:
+                    ctx.notes.append(f"supplementary divergence ({self.name}): {d}: input {canon(case)[:300]} real {canon(o)[:300]} "
+                                     f"model {canon(m)[:300]}")
+        return None
+
+
+class VersionLibrary(Informational):
+    """The pure utilities of protocol/types/versioning.py (negotiate_version, validate_version_compatibility, compare / is_newer /
+    is_older, validate_format, parse_version, is_supported, get_*_supported, get_version_info, format_version_list): the real
+    functions against their REGENERATED Lean counterparts (Gen/VersionLib.lean) on a grid of versions (well-formed, malformed,
+    Unicode digits of several scripts, whitespace twins, empty) and of lists (empty, duplicates, disjoint, common at every position)."""
+
+    name = "version-library"
+
+    def gen(self, ctx, budget):
+        rng = ctx.sub_rng("c04-versionlib", budget)
+        quick = budget == "quick"
+        strs, _ = V.harvest_constants()
+        pool = V.version_pool(MALFORMED_STRINGS[:20] + [s_ for s_ in strs if "20" in s_ or "ersion" in s_][:15] + V.HOSTILE_TEXT[:18])
+        out = [{"op": "consts"}]
+        try:  # which functions the translator could regenerate from the current source (the others use the reference definition)
+            import re as _re
+            from ..core import LEAN
+            m_ = _re.search(r"def notRegenerated : List String := \[(.*)\]", (LEAN / "Verif" / "Gen" / "VersionLib.lean").read_text())
+            if m_ and m_.group(1).strip():
+                ctx.notes.append("version-library: source outside the translator's subset, reference definition used for: " + m_.group(1))
+        except Exception:
+            pass
+        # single versions: the pool, every calendar date of 2024..2026 (thorough: 1995..2034), seeded dddd-dd-dd in several scripts
+        ones = list(pool)
+        for d in all_dates(2024 if quick else 1995, 2026 if quick else 2034):
+            ones.append(d.isoformat())
+        zeros = [0x30, 0x660, 0xFF10, 0x966, 0x1D7CE]
+        for _ in range(300 if quick else 5000):
+            z = [rng.choice(zeros) for _ in range(8)] if rng.random() < 0.3 else [rng.choice(zeros)] * 8
+            ds = [rng.randrange(10) for _ in range(8)]
+            cs = [chr(zz + dd) for zz, dd in zip(z, ds)]
+            ones.append("".join(cs[:4]) + "-" + "".join(cs[4:6]) + "-" + "".join(cs[6:]) + rng.choice(["", "", "", "\n", " ", "\n\n"]))
+        out += [{"op": "one", "v": v} for v in dict.fromkeys(ones)]
+        # pairs: everything in the pool against a core, the core against itself both ways
+        core = V.REAL + ["2025-06-17", "2025-06-19", "1999-12-31", "2026-01-01", "2025-06-18\n", "٢٠٢٥-٠٦-١٨", "２０２４-１１-０５", "2025-6-18", "", "draft"]
+        pairs = [(a, b) for a in pool for b in core] + [(b, a) for a in pool for b in core]
+        import re
+        wf = [v for v in pool + ones[len(pool)::97] if re.match(r"^\d{4}-\d{2}-\d{2}$", v)]  # well-formed by the documented pattern
+        pairs += [(a, b) for a in wf for b in wf]
+        if not quick:
+            pairs += [(a, b) for a in pool for b in pool]
+        out += [{"op": "pair", "a": a, "b": b} for a, b in dict.fromkeys(pairs)]
+        # negotiation: every pair of lists of length<=2 (quick) / <=3 (thorough) over a small universe with duplicates, plus seeded longer ones
+        uni = ["2025-06-18", "2025-03-26", "2024-11-05", "1999-12-31", "2025-06-18\n", ""]
+        import itertools
+        n = 2 if quick else 3
+        lists = [list(t) for k in range(n + 1) for t in itertools.product(uni[:5] if quick else uni, repeat=k)]
+        if quick:
+            lists = [l for l in lists if len(l) < 2 or True]
+        for c in lists:
+            for s_ in lists:
+                out.append({"op": "negotiate", "c": c, "s": s_})
+        for _ in range(500 if quick else 20000):
+            out.append({"op": "negotiate", "c": [rng.choice(pool) for _ in range(rng.randrange(0, 6))],
+                        "s": [rng.choice(pool) for _ in range(rng.randrange(0, 6))]})
+        for k in range(0, 5):
+            for _ in range(6 if quick else 60):
+                out.append({"op": "format", "vs": [rng.choice(pool) for _ in range(k)]})
+        ctx.exhaustive_parts.append(
+            "version-library: every pair of client/server lists of length<=%d over %d versions (duplicates and empty lists included); "
+            "every calendar date of %s; a pool of %d well-formed / malformed / Unicode-digit / whitespace versions against a core of %d, "
+            "both ways" % (n, len(uni[:5] if quick else uni), "2024..2026" if quick else "1995..2034", len(pool), len(core)))
+        return out
+
+    def impl_batch(self, cases):
+        return V.run_versionlib(cases)
+
+    def model_line(self, case):
+        return dict(case, m="versionlib")
+
+    def differs(self, case, o, m):
+        op = case["op"]
+        if op == "consts":
+            for k in ("latest", "minimum", "all"):
+                if canon(o[k]) != canon(m[k]):
+                    return k
+            if o["module_current"] != m["latest"] or o["module_minimum"] != m["minimum"] or o["module_list"] != m["all"]:
+                return "module constants"
+            if not o["copy_is_independent"]:
+                return "get_all_supported hands out the module's own list"
+            return None
+        if op == "one":
+            for k in ("valid", "supported", "parse", "info"):
+                if canon(o[k]) != canon(m[k]):
+                    return k
+            return None
+        if op == "negotiate" and o.get("mutated"):
+            return "argument list modified"
+        keys = {"pair": ("compatible", "compare", "newer", "older"), "negotiate": ("r",), "format": ("r",)}[op]
+        for k in keys:
+            if canon(o[k]) != canon(m[k]):
+                return k
+        return None
+
+    def kind(self, case, o):
+        op = case["op"]
+        if op == "one":
+            return "versionlib/one/" + ("valid" if o["valid"] is True else "invalid") + ("/supported" if o["supported"] is True else "")
+        if op == "pair":
+            return "versionlib/compare/" + str(o["compare"])
+        if op == "negotiate":
+            return "versionlib/negotiate/" + ("raises" if o["r"] == V.RAISES else "agreed") + ("/empty-list" if not case["c"] or not case["s"] else "")
+        return "versionlib/" + op
+
+
 def suites():
-    return [Server(), Handshake()]
+    return [Server(), Handshake(), VersionLibrary()]
